@@ -507,9 +507,10 @@ func Wait(what string, pred func() bool) {
 		panic(killSig{})
 	}
 	t := s.cur
-	if s.inSched > 0 {
+	if s.inSched > 0 || s.ended {
+		// strategy/environment code, or the harness after the execution ended: never a scheduling point
 		if !pred() {
-			panic("vsched: blocking wait (" + what + ") from scheduler context")
+			panic("vsched: blocking wait (" + what + ") outside a running thread")
 		}
 		return
 	}
